@@ -313,7 +313,8 @@ def _eq(x, y):
 # strategies for sample specs
 # --------------------------------------------------------------------------------------------------
 
-NAME_POOL = ['FSC-H', 'SSC-H', 'FL1-H', 'FL2-H', 'FL3-H', 'FL4-A', 'B530', 'Y585', 'Time', 'V450', 'fl1-h', 'Pacific Blue-A']
+NAME_POOL = ['FSC-H', 'SSC-H', 'FL1-H', 'FL2-H', 'FL3-H', 'FL4-A', 'B530', 'Y585', 'Time', 'V450', 'fl1-h', 'Pacific Blue-A',
+             'FL1', 'SC-H']          # (names may be contained in other names)
 
 
 @st.composite
